@@ -89,13 +89,13 @@ fn sizes(r: &Report, q: (usize, usize, usize), t: (usize, usize, usize)) -> (usi
 }
 
 pub fn c02(r: &mut Report) {
-    let (a, b, c) = sizes(r, (10, 8, 0), (40, 40, 0));
+    let (a, b, c) = sizes(r, (16, 12, 0), (50, 50, 0));
     let plan = Plan {
         families: gen::ALL_FAMILIES.to_vec(),
         n_tiny: a,
         n_small: b,
         n_sampled: c,
-        enum_cap: if r.quick() { 8_000 } else { 80_000 },
+        enum_cap: if r.quick() { 12_000 } else { 80_000 },
         sample_iters: 0,
         judge_completeness: true,
         corpus: true,
@@ -112,13 +112,13 @@ pub fn c02(r: &mut Report) {
 }
 
 pub fn c03(r: &mut Report) {
-    let (a, b, c) = sizes(r, (8, 6, 4), (40, 40, 24));
+    let (a, b, c) = sizes(r, (14, 12, 8), (50, 50, 30));
     let plan = Plan {
         families: vec![Family::Mutex, Family::Condvar, Family::Park, Family::ChanBounded, Family::ChanRendezvous, Family::Sem, Family::Barrier],
         n_tiny: a,
         n_small: b,
         n_sampled: c,
-        enum_cap: if r.quick() { 8_000 } else { 80_000 },
+        enum_cap: if r.quick() { 12_000 } else { 80_000 },
         sample_iters: if r.quick() { 1_500 } else { 20_000 },
         judge_completeness: false,
         corpus: true,
@@ -127,13 +127,13 @@ pub fn c03(r: &mut Report) {
 }
 
 pub fn c04(r: &mut Report) {
-    let (a, b, c) = sizes(r, (12, 10, 6), (60, 50, 30));
+    let (a, b, c) = sizes(r, (20, 16, 8), (70, 60, 36));
     let plan = Plan {
         families: vec![Family::Mutex, Family::RwLock, Family::Atomics, Family::Reentrant],
         n_tiny: a,
         n_small: b,
         n_sampled: c,
-        enum_cap: if r.quick() { 8_000 } else { 80_000 },
+        enum_cap: if r.quick() { 12_000 } else { 80_000 },
         sample_iters: if r.quick() { 1_500 } else { 20_000 },
         judge_completeness: false,
         corpus: false,
@@ -158,13 +158,13 @@ pub fn c04(r: &mut Report) {
 }
 
 pub fn c05(r: &mut Report) {
-    let (a, b, c) = sizes(r, (12, 10, 6), (60, 50, 30));
+    let (a, b, c) = sizes(r, (20, 16, 8), (70, 60, 36));
     let plan = Plan {
         families: vec![Family::Condvar, Family::Barrier, Family::Once, Family::Park],
         n_tiny: a,
         n_small: b,
         n_sampled: c,
-        enum_cap: if r.quick() { 8_000 } else { 80_000 },
+        enum_cap: if r.quick() { 12_000 } else { 80_000 },
         sample_iters: if r.quick() { 1_500 } else { 20_000 },
         judge_completeness: false,
         corpus: true,
@@ -173,13 +173,13 @@ pub fn c05(r: &mut Report) {
 }
 
 pub fn c06(r: &mut Report) {
-    let (a, b, c) = sizes(r, (12, 10, 6), (60, 50, 30));
+    let (a, b, c) = sizes(r, (20, 16, 8), (70, 60, 36));
     let plan = Plan {
         families: vec![Family::ChanUnbounded, Family::ChanBounded, Family::ChanRendezvous],
         n_tiny: a,
         n_small: b,
         n_sampled: c,
-        enum_cap: if r.quick() { 8_000 } else { 80_000 },
+        enum_cap: if r.quick() { 12_000 } else { 80_000 },
         sample_iters: if r.quick() { 1_500 } else { 20_000 },
         judge_completeness: false,
         corpus: false,
